@@ -26,11 +26,11 @@ func init() {
 		Title: "Message queues: FIFO, exactly once, no lost wake-up; priority by counter",
 		Explanation: "Decides, from the type-checked SSA of the generic bodies of queue.SimpleQueue and queue.PriorityQueue (every function of the package that touches their fields), shapes that hold or fail for every interleaving at once. " +
 			"SimpleQueue: (D1) items enter the list at one end and leave from the other (PushBack vs Front+Remove, or the mirror image), every removed element is the head element read in the same critical section and its value is what the function returns, every head value that is returned is removed on every path (exactly once), and every list operation runs with the queue mutex held - code that sits in an unexported helper of the package is checked in the helper's body once per exported function through which it is reached, with the locks held on that function's call chains (a helper called with the mutex held is as good as inline code; the helper's result must be passed on to the exported function's return), so extracting or merging helpers neither hides a site nor lowers the obligation count; " +
-			"(D2) the wake-up channel is not of the losing shape 'capacity 0 + non-blocking send + receive performed after the mutex was released' (a send falling between the waiter's unlock and its receive is dropped); every receive that takes a token off the wake-up channel (the blocking wait, a non-blocking drain, in the waiter or in a helper on its path) is followed, before the consumer can block on the channel again, by a fresh emptiness test made with the mutex held - unless it was made with the mutex held on the empty side of such a test in the same critical section (the token is then provably stale) - because a token taken after the mutex was released may belong to an item that has not been seen; and an exported function never reaches its blocking wait from the entry without such a test; " +
+			"(D2) the wake-up channel is not of the losing shape 'capacity 0 + non-blocking send + receive performed after the mutex was released' (a send falling between the waiter's unlock and its receive is dropped); every receive that takes a token off the wake-up channel (the blocking wait, a non-blocking drain, in the waiter or in a helper on its path) is followed, before the consumer can block on the channel again, by a fresh emptiness test made with the mutex held - unless it was made with the mutex held on the empty side of such a test in the same critical section (the token is then provably stale) - because a token taken after the mutex was released may belong to an item that has not been seen; and an exported function never reaches its blocking wait from the entry without such a test; a non-blocking receive on the wake-up channel in code that is not part of the consumer's wait (Pop, Add, their helpers - it can run while a consumer is about to block, and the one-slot channel coalesces several signals into one token) is allowed only under the mutex on the empty side of an emptiness test; " +
 			"(D3) after every wake-up the waiter re-observes emptiness (Len, or a nil-tested Front/Back) before any removal; " +
 			"(D4) every insertion is followed on every path by a wake-up send, or preceded by one inside the same uninterrupted critical section; " +
 			"(D5) the blocking wait also listens to ctx.Done(), a wait ended by cancellation cannot re-enter the wait without testing ctx.Err(), the exit taken on cancellation returns the zero item and false, and an item is removed and handed out only after the context was tested since the last blocking point (function entry or the wait; ctx.Err() feeding a branch or a non-blocking ctx.Done() case), the cancelled side of that test removing nothing - so a wait whose context is already cancelled returns 'no item' even when items are pending. " +
-			"PriorityQueue: (D6) Less, interpreted concretely (integer arithmetic with wrap-around, conversions, comparisons, cmp.Compare) on 64 pairs of uint64 counters including values 2^63 and more apart, is true for every counter(i)<counter(j) and false for every counter(i)>counter(j) (a signed-difference comparison is reported as not a total order), Swap exchanges both elements, Push appends its argument, Pop returns and removes the last element; container/heap operations on the queue run under the write lock; Push/Pop/Swap are never called directly by module code (only through container/heap); Add pushes its argument through heap.Push on every path; the items handed out by Next/NextAll are results of heap.Pop; Len returns the length of the backing slice; NextAll, interpreted concretely for queues of 0..5 items with a callback that returns nil (len/Len() = current size, heap.Pop/Push change it, local cells and loop counters computed), returns nil only with the queue empty, never pops an empty queue and hands every popped item to the callback - the contract C08 relies on ('on a nil return nothing stays parked'); the backing slice is not written outside the heap.Interface methods and is read only under the lock. " +
+			"PriorityQueue: (D6) Less, interpreted concretely (integer arithmetic with wrap-around, conversions, comparisons, cmp.Compare, module comparison helpers inlined to depth 2 with the items or their counters as arguments) on 64 pairs of uint64 counters including values 2^63 and more apart, is true for every counter(i)<counter(j) and false for every counter(i)>counter(j) (a signed-difference comparison is reported as not a total order), Swap exchanges both elements, Push appends its argument, Pop returns and removes the last element; container/heap operations on the queue run under the write lock; Push/Pop/Swap are never called directly by module code (only through container/heap); Add pushes its argument through heap.Push on every path; the items handed out by Next/NextAll are results of heap.Pop; Len returns the length of the backing slice; NextAll, interpreted concretely for queues of 0..5 items with a callback that returns nil (len/Len() = current size, heap.Pop/Push change it, local cells and loop counters computed), returns nil only with the queue empty, never pops an empty queue and hands every popped item to the callback - the contract C08 relies on ('on a nil return nothing stays parked'); the backing slice is not written outside the heap.Interface methods and is read only under the lock. " +
 			"Not decided: the exhaustive interleaving exploration the property asks for (only the listed lost-wake-up, ordering and locking shapes are decided), fairness/liveness of the Go scheduler, behaviour with more than one consumer (a single wake-up token is enough for one consumer only), correctness of container/list and container/heap themselves, what the callers in store_message.go do with the items.",
 		Trusted:     []string{"golang.org/x/tools go/packages+go/ssa (v0.29.0)", "container/list, container/heap, sync.Mutex/RWMutex, channel and select semantics of the Go runtime", "lock identity by owner type + field (methods touch only their receiver's fields)"},
 		Assumptions: []string{"one consumer per SimpleQueue (as in MessageStore.processMessageLoop)", "queue fields are unexported, so the functions of package internal/queue are all the code that can touch them"},
@@ -1649,34 +1649,6 @@ func c15ParamIndex(fn *ssa.Function, v ssa.Value) int {
 	return -1
 }
 
-// counterOf: v is items[param].Counter(); returns the parameter index.
-func (p *c15Prio) counterOf(fn *ssa.Function, v ssa.Value) int {
-	call, ok := v.(*ssa.Call)
-	if !ok {
-		return -1
-	}
-	cc := call.Common()
-	name := ""
-	var recv ssa.Value
-	if cc.IsInvoke() {
-		name, recv = cc.Method.Name(), cc.Value
-	} else if f := staticCallee(cc); f != nil && len(cc.Args) > 0 {
-		name, recv = f.Name(), cc.Args[0]
-	}
-	if name != "Counter" { // method of the exported interface queue.ICounter
-		return -1
-	}
-	ld, ok := recv.(*ssa.UnOp)
-	if !ok || ld.Op != token.MUL {
-		return -1
-	}
-	idx, ok := p.elemAddr(ld.X)
-	if !ok {
-		return -1
-	}
-	return c15ParamIndex(fn, idx)
-}
-
 // c15Num: a concrete integer (or boolean) value of a fixed width.
 type c15Num struct {
 	bits   uint64
@@ -1732,8 +1704,98 @@ type c15LessEval struct {
 	fn     *ssa.Function
 	ci, cj uint64
 	env    map[ssa.Value]c15Num
+	items  map[ssa.Value]int // callee frames: parameters bound to items[i] (1) / items[j] (2)
+	level  int               // inlining depth
 	why    string
 	at     ssa.Instruction
+}
+
+// itemOf: v is the queue element items[i] (1) or items[j] (2), 0 otherwise.
+func (ev *c15LessEval) itemOf(v ssa.Value) int {
+	for i := 0; i < 4; i++ {
+		if k := ev.items[v]; k > 0 {
+			return k
+		}
+		switch x := v.(type) {
+		case *ssa.ChangeType:
+			v = x.X
+			continue
+		case *ssa.MakeInterface:
+			v = x.X
+			continue
+		case *ssa.ChangeInterface:
+			v = x.X
+			continue
+		case *ssa.UnOp:
+			if x.Op == token.MUL && ev.level == 0 {
+				if idx, ok := ev.p.elemAddr(x.X); ok {
+					if k := c15ParamIndex(ev.fn, idx); k == 1 || k == 2 {
+						return k
+					}
+				}
+			}
+		}
+		break
+	}
+	return 0
+}
+
+// counterIdx: call is <item>.Counter(); returns which item (1, 2) or 0.
+func (ev *c15LessEval) counterIdx(call *ssa.Call) int {
+	cc := call.Common()
+	name := ""
+	var recv ssa.Value
+	if cc.IsInvoke() {
+		name, recv = cc.Method.Name(), cc.Value
+	} else if f := staticCallee(cc); f != nil && len(cc.Args) > 0 && f.Signature.Recv() != nil {
+		name, recv = f.Name(), cc.Args[0]
+	}
+	if name != "Counter" { // method of the exported interface queue.ICounter
+		return 0
+	}
+	return ev.itemOf(recv)
+}
+
+// inline evaluates a call of a module function with a body (a comparison helper): items and
+// numbers are passed as arguments, depth <= 2.
+func (ev *c15LessEval) inline(call *ssa.Call, depth int) (c15Num, bool, bool) {
+	f := staticCallee(call.Common())
+	if f == nil {
+		return c15Num{}, false, false
+	}
+	if f.Blocks == nil {
+		if o := f.Origin(); o != nil && o.Blocks != nil {
+			f = o
+		}
+	}
+	if pk := fnPkg(f); f.Blocks == nil || pk == nil || !strings.HasPrefix(pk.Path(), modulePath) || ev.level >= 2 {
+		return c15Num{}, false, false
+	}
+	args := call.Common().Args
+	if len(args) != len(f.Params) || f.Signature.Results().Len() != 1 {
+		return c15Num{}, false, false
+	}
+	sub := &c15LessEval{p: ev.p, fn: f, ci: ev.ci, cj: ev.cj, env: map[ssa.Value]c15Num{}, items: map[ssa.Value]int{}, level: ev.level + 1}
+	for i, a := range args {
+		if k := ev.itemOf(a); k > 0 {
+			sub.items[f.Params[i]] = k
+			continue
+		}
+		w, at := ev.why, ev.at
+		if n, ok := ev.val(a, depth+1); ok {
+			sub.env[f.Params[i]] = n
+		} else {
+			ev.why, ev.at = w, at // an argument the helper may not need (the queue itself)
+		}
+	}
+	n, ok := sub.runNum()
+	if !ok {
+		if ev.why == "" {
+			ev.why, ev.at = "in helper "+f.Name()+": "+sub.why, sub.at
+		}
+		return c15Num{}, false, true
+	}
+	return n, true, true
 }
 
 func (ev *c15LessEval) fail(in ssa.Value, why string) (c15Num, bool) {
@@ -1855,11 +1917,14 @@ func (ev *c15LessEval) val(v ssa.Value, depth int) (c15Num, bool) {
 		}
 		return ev.fail(v, "binary operator "+x.Op.String()+" not modelled")
 	case *ssa.Call:
-		switch ev.p.counterOf(ev.fn, x) {
+		switch ev.counterIdx(x) {
 		case 1:
 			return c15NumOf(x.Type(), ev.ci)
 		case 2:
 			return c15NumOf(x.Type(), ev.cj)
+		}
+		if n, ok, tried := ev.inline(x, depth); tried {
+			return n, ok
 		}
 		cc := x.Common()
 		if k := calleeKey(cc); (k == "cmp.Compare" || k == "cmp.Less") && len(cc.Args) == 2 {
@@ -1882,14 +1947,22 @@ func (ev *c15LessEval) val(v ssa.Value, depth int) (c15Num, bool) {
 			}
 			return c15NumOf(x.Type(), r)
 		}
-		return ev.fail(v, "call other than items[i].Counter() / items[j].Counter()")
+		return ev.fail(v, "call other than items[i].Counter() / items[j].Counter(), cmp.Compare/Less or a module helper with a body")
 	}
 	return ev.fail(v, fmt.Sprintf("%T not modelled", v))
 }
 
 // run interprets the function; returns the boolean result.
 func (ev *c15LessEval) run() (bool, bool) {
-	ev.env = map[ssa.Value]c15Num{}
+	n, ok := ev.runNum()
+	return n.bits != 0, ok && n.width == 1
+}
+
+// runNum interprets the function (loop-free up to the step budget) and returns its result.
+func (ev *c15LessEval) runNum() (c15Num, bool) {
+	if ev.env == nil {
+		ev.env = map[ssa.Value]c15Num{}
+	}
 	b, prev := ev.fn.Blocks[0], (*ssa.BasicBlock)(nil)
 	for steps := 0; steps < 64; steps++ {
 		// phis of the block, from the edge taken
@@ -1907,11 +1980,11 @@ func (ev *c15LessEval) run() (bool, bool) {
 					break
 				}
 				if idx < 0 {
-					return false, false
+					return c15Num{}, false
 				}
 				n, ok := ev.val(ph.Edges[idx], 0)
 				if !ok {
-					return false, false
+					return c15Num{}, false
 				}
 				vals[ph] = n
 			}
@@ -1923,14 +1996,13 @@ func (ev *c15LessEval) run() (bool, bool) {
 		switch t := last.(type) {
 		case *ssa.Return:
 			if len(t.Results) != 1 {
-				return false, false
+				return c15Num{}, false
 			}
-			n, ok := ev.val(t.Results[0], 0)
-			return n.bits != 0, ok && n.width == 1
+			return ev.val(t.Results[0], 0)
 		case *ssa.If:
 			n, ok := ev.val(t.Cond, 0)
 			if !ok {
-				return false, false
+				return c15Num{}, false
 			}
 			prev = b
 			if n.bits != 0 {
@@ -1943,11 +2015,11 @@ func (ev *c15LessEval) run() (bool, bool) {
 		default:
 			ev.fail(nil, "control flow not modelled")
 			ev.at = last
-			return false, false
+			return c15Num{}, false
 		}
 	}
 	ev.fail(nil, "evaluation did not terminate")
-	return false, false
+	return c15Num{}, false
 }
 
 // D6 Less: evaluate the function on a small domain of counter pairs that includes values far
@@ -2851,6 +2923,19 @@ func (s *c15Simple) staleAt(at ssa.Instruction, depth int) bool {
 	return false
 }
 
+// waiterSide: fn runs only as part of the consumer's wait: every exported function through
+// which it is reached can itself block on the wake-up channel. Code elsewhere (Pop, Add) can
+// run concurrently with a consumer that is about to block.
+func (s *c15Simple) waiterSide(fn *ssa.Function) bool {
+	roots := s.e.rootsOf(fn)
+	for _, r := range roots {
+		if len(s.blockTargets(r, 0)) == 0 {
+			return false
+		}
+	}
+	return len(roots) > 0
+}
+
 func (s *c15Simple) ruleTokenRecheck() {
 	c := s.e.c
 	for _, r := range s.recvs {
@@ -2858,9 +2943,17 @@ func (s *c15Simple) ruleTokenRecheck() {
 		if r.blocking {
 			kind = "blocking receive"
 		}
-		construct := fnName(r.fn) + "+token taken by " + kind + " is re-checked before blocking"
+		construct := fnName(r.fn) + "+token taken off the wake-up channel by " + kind
 		if s.provablyStale(r) {
 			c.ok("D2", construct, posOf(r.in), "the token is taken with the mutex held on the empty side of an emptiness test of the same critical section: it is stale")
+			continue
+		}
+		if !r.blocking && !s.waiterSide(r.fn) {
+			where := "with the queue mutex held, but at a point where the list may be non-empty"
+			if !s.e.holds(r.in, s.locks, 'W') {
+				where = "without the queue mutex held"
+			}
+			c.fail("D2", construct, posOf(r.in), "lost wake-up: %s takes a token off the wake-up channel with a non-blocking receive %s. It is not the consumer's wait, so it can run while a consumer has seen the queue empty, released the mutex and is about to block; the one-slot channel coalesces the signals of several Adds into one token, so the token removed here can be the only thing that would wake that consumer while items remain queued. A token may be taken only by the blocking wait, or under the mutex on the empty side of an emptiness test (nothing to wake for)", fnName(r.fn), where)
 			continue
 		}
 		if hit := s.blocksBeforeRecheck(r.in, 0); hit != nil {
